@@ -840,9 +840,10 @@ Proof.
   - destruct (skipn h l) as [|m hi'] eqn:E.
     + rewrite app_nil_r in P. destruct l as [|x l]; [reflexivity|].
       assert (List.length (skipn h (x :: l)) = 0%nat) by (rewrite E; reflexivity).
-      rewrite skipn_length in H. cbn [List.length] in H. subst h.
-      pose proof (Nat.div_lt (S (List.length l)) 2 ltac:(lia) ltac:(lia)). cbn [List.length] in H0. lia.
-    + rewrite alternate_perm. rewrite <- P. symmetry. apply Permutation_middle.
+      rewrite skipn_length in H. unfold h in H.
+      pose proof (Nat.div_lt (List.length (x :: l)) 2 ltac:(cbn [List.length]; lia) ltac:(lia)) as H0.
+      remember (List.length (x :: l) / 2)%nat as d. remember (List.length (x :: l)) as n. clear - H H0. lia.
+    + rewrite alternate_perm. transitivity (rev (firstn h l) ++ m :: hi'); [apply Permutation_middle | exact P].
 Qed.
 
 (* UP, DOWN, CONVERGE, DIVERGE play every note of the chord exactly once *)
